@@ -72,6 +72,30 @@ def neutral_variants():
     return out
 
 
+def seeded_variants(prop):
+    """The property-breaking changes kept under seeded/ (written by independent sub-agents, each confirmed against the real
+    code with a demonstration): the check of the property a change breaks must report it.  A change whose patch no longer
+    applies to the current tree is skipped (and listed as such)."""
+    import json
+    base = os.path.join(os.path.dirname(os.path.dirname(os.path.abspath(__file__))), "seeded")
+    out = []
+    if os.path.isdir(base):
+        for d in sorted(os.listdir(base)):
+            pth = os.path.join(base, d, "patch.diff")
+            meta = os.path.join(base, d, "meta.json")
+            if not (os.path.exists(pth) and os.path.exists(meta)):
+                continue
+            try:
+                with open(meta) as fh:
+                    broken = json.load(fh).get("breaks_property")
+            except ValueError:
+                continue
+            if broken == prop:
+                out.append({"name": "seeded/%s (change by a sub-agent that breaks %s)" % (d, prop), "kind": "B", "props": [prop],
+                            "patch": pth, "expect": {}})
+    return out
+
+
 def _run_one(args):
     prop, v, baseline_keys = args
     from .engine import Analysis
@@ -100,7 +124,7 @@ def _run_one(args):
 
 def run_for(prop, mod, baseline_findings=None, jobs=None):
     corpus_mod = importlib.import_module("sa.corpus")
-    variants = [v for v in corpus_mod.VARIANTS if prop in v["props"]] + neutral_variants()
+    variants = [v for v in corpus_mod.VARIANTS if prop in v["props"]] + neutral_variants() + seeded_variants(prop)
     known = {(k["rule"], k["construct"]) for k in load_known() if k.get("property") == prop and k.get("status") == "known"}
     baseline = sorted({(f.rule, f.construct) for f in (baseline_findings or [])})
     unlisted_baseline = [b for b in baseline if b not in known]
